@@ -2,7 +2,7 @@
 // License, v. 2.0. If a copy of the MPL was not distributed with this
 // file, You can obtain one at https://mozilla.org/MPL/2.0/.
 
-use super::Context;
+use super::{Context, Registry};
 use crate::ast::{BinOpExpr, BinOpType, Def, DefEntry, Defs, Expr, UnaryOpExpr, UnaryOpType};
 use crate::output::DocString;
 use crate::runtime::{Properties, Property, Substance, Value};
@@ -162,6 +162,46 @@ impl Resolver {
             self.sorted.push(id.clone());
         }
     }
+}
+
+/// Returns true if recording `expr` as the definition of `name` would
+/// make the aliases already recorded in the registry lead back to
+/// `name`. The resolver only sees the definitions of the current load,
+/// so a later load could otherwise close a cycle of aliases, which
+/// canonicalization would follow forever.
+fn closes_alias_cycle(registry: &Registry, name: &str, expr: &Expr) -> bool {
+    // The recorded definition that a name is read as: the name itself,
+    // the name without a prefix, or without its plural s.
+    let defined = |alias: &str| -> Option<String> {
+        let with_prefix = |alias: &str| -> Option<String> {
+            if alias == name || registry.definitions.contains_key(alias) {
+                return Some(alias.to_owned());
+            }
+            registry
+                .prefixes
+                .iter()
+                .filter_map(|(prefix, _)| alias.strip_prefix(&**prefix))
+                .find(|rest| *rest == name || registry.definitions.contains_key(*rest))
+                .map(|rest| rest.to_owned())
+        };
+        with_prefix(alias).or_else(|| alias.strip_suffix('s').and_then(with_prefix))
+    };
+    let mut current = match expr {
+        Expr::Unit { name } => name.clone(),
+        _ => return false,
+    };
+    // A chain of aliases that isn't a cycle visits each definition at most once.
+    for _ in 0..=registry.definitions.len() {
+        current = match defined(&current) {
+            Some(ref alias) if alias == name => return true,
+            Some(alias) => match registry.definitions.get(&alias) {
+                Some(Expr::Unit { name }) => name.clone(),
+                _ => return false,
+            },
+            None => return false,
+        };
+    }
+    true
 }
 
 fn eval_prefix(prefixes: &BTreeMap<String, Numeric>, expr: &Expr) -> Result<Numeric, String> {
@@ -428,6 +468,11 @@ pub(crate) fn load_defs(ctx: &mut Context, defs: Defs) -> Vec<String> {
                 }
             }
             Def::Unit { ref expr } => match ctx.eval(expr) {
+                Ok(Value::Number(_)) if closes_alias_cycle(&ctx.registry, &name, &expr.0) => {
+                    resolver
+                        .errors
+                        .push(format!("{} is an alias of itself", id))
+                }
                 Ok(Value::Number(v)) => {
                     // This is one of the SI derived units, so put it in the map.
                     if v.value == Numeric::one() && decomposition_units.contains(&*name) {
